@@ -46,7 +46,7 @@ CLAIMED = {
         level="exploration", design="4.3",
         text=("Each run (one freshly forked process in which nothing is parsed before the interleaving starts) loads 1-2 generated XTCE documents, creates 1-6 packet generators with drawn options over bytes / simulated disk / simulated sockets on one shared event queue, and lets a seeded scheduler decide which generator receives each next(), when one is abandoned (close), when another document is loaded, when parse_ccsds_packet is called directly on the shared definition, and when one generator's own disk or link fails. Streams mix recognised, unknown-APID, ambiguous, two-level dead-end and wrong-length packets and, for combining generators, segment groups with foreign packets inside. Every generator's item sequence must equal the concatenation of what a fresh generator yields for each unit alone on a separately loaded definition (computed in pristine child processes, in stream order and in reverse order, which must agree); category facts known by construction are checked directly; yielded objects must not change later; fingerprint and serialisation of each shared definition must be unchanged."),
         note=("Both sides of the main comparison are the library; the property is that they agree. Packets whose stand-alone "
-              "parse raises (which would end a generator; the statement is silent) are weeded out at plan time and counted. "
+              "parse raises (which would end a generator; the statement is silent) are weeded out at plan time and counted, except that in a third of the runs ONE generator keeps such a packet as its last unit: it must die on it as the stand-alone parse does, and every other generator and later direct parse is judged in full (failure isolation). "
               "One thread: no pre-emption inside next()."),
         technique=TECH + ": seeded scheduler interleaving next()/close()/load/direct-parse over several generators sharing "
                          "definitions, oracle = each packet parsed alone on an untouched definition"),
